@@ -102,7 +102,7 @@ def wrap_nested(h):
 def reduced(h):
     arraylike = h.choice('arraylike', [True, False])
     vec = h.choice('cost_is_array_valued', [False, True])
-    f = h.fn('F', ret='list' if vec else 'real', log='evals')
+    f = h.fn('F', ret='list' if vec else 'real', log='evals', minlen=1)
     if arraylike:
         red = h.fn('RED', ret='real')
     else:
@@ -115,7 +115,7 @@ def reduced(h):
     evals = h.log('evals')
     h.check('evaluated-once-at-x', 'len(evals) == 1 and seq_eq(evals[0][0], x)', evals=evals, x=x)
     if h.is_sym():
-        fx = h.call(h.fn('F', ret='list' if vec else 'real'), x)
+        fx = h.call(h.fn('F', ret='list' if vec else 'real', minlen=1), x)
         if vec:
             h.check('array-valued-cost-goes-through-reducer', 'r == rr', r=r, rr=h.call(red, fx))
         else:
